@@ -17,3 +17,11 @@ for sid, e in T.items():
     }
     json.dump(meta, open(os.path.join(d, 'meta.json'), 'w'), indent=1)
 print('wrote', len(T))
+
+# markdown table for DESIGN.md (A.9)
+if len(sys.argv) > 1 and sys.argv[1] == '--table':
+    print('| seeded | breaks | needs | caught by (quick) | notes |')
+    print('|---|---|---|---|---|')
+    for sid, e in T.items():
+        cb = ', '.join('**%s**' % c for c in e['caught_by']) if e['caught_by'] else '— (miss)'
+        print(f"| {sid} | {e['property']} | {e['needs']} | {cb} | {e.get('note', '')} |")
